@@ -302,7 +302,7 @@ func hC06SetText(tag string, nd string, s hC06Set) string {
 	as := " addrspace(" + s.ad + ")"
 	return "@t" + tag + " =" + as + " global %T zeroinitializer\n" +
 		"@e" + tag + " = global i64" + as + "* getelementptr (%T, %T" + as + "* @t" + tag + ", i32 0, i32 1)\n" +
-		"define void @f" + tag + "(" + vi + " %a, " + vi + " %b, " + vf + " %x, " + vf + " %y, %T" + as + "* %p, " + iw + as + "* %q) {\n" +
+		"define void @f" + tag + "(" + vi + " %a, " + vi + " %b, " + vf + " %x, " + vf + " %y, %T" + as + "* %p, " + iw + as + "* %q, <" + s.vs + nd + " x i64> %ix) {\n" +
 		"\t%i0 = icmp eq " + vi + " %a, %b\n" +
 		"\t%i1 = fcmp oeq " + vf + " %x, %y\n" +
 		"\t%i2 = shufflevector " + vi + " %a, " + vi + " %b, <" + s.vs + nd + " x i32> zeroinitializer\n" +
@@ -312,6 +312,8 @@ func hC06SetText(tag string, nd string, s hC06Set) string {
 		"\t%i6 = cmpxchg " + iw + as + "* %q, " + iw + " 0, " + iw + " 1 seq_cst seq_cst\n" +
 		"\t%i7 = alloca %T, addrspace(" + s.ad + ")\n" +
 		"\t%i8 = icmp eq %T" + as + "* %p, null\n" +
+		"\t%i9 = getelementptr " + iw + ", " + iw + as + "* %q, <" + s.vs + nd + " x i64> %ix\n" + // scalar base, vector index
+		"\t%i10 = getelementptr %T, %T" + as + "* %p, <" + s.vs + nd + " x i64> %ix, i32 1\n" +
 		"\tret void\n}\n"
 }
 
@@ -322,10 +324,10 @@ func hC06SetWant(n uint64, s hC06Set, td types.Type) []types.Type {
 	}
 	ptr := func(el types.Type) types.Type { return &types.PointerType{ElemType: el, AddrSpace: types.AddrSpace(s.as)} }
 	return []types.Type{vec(types.I1), vec(types.I1), vec(it), ptr(types.I64), ptr(it), vec(types.I64),
-		types.NewStruct(it, types.I1), ptr(td), types.I1}
+		types.NewStruct(it, types.I1), ptr(td), types.I1, vec(ptr(it)), vec(ptr(types.I64))}
 }
 
-var hC06PairIDs = [...]string{".pairs.icmp", ".pairs.fcmp", ".pairs.shufflevector", ".pairs.gep-struct", ".pairs.gep", ".pairs.zext", ".pairs.cmpxchg", ".pairs.alloca", ".pairs.icmp-pointer"}
+var hC06PairIDs = [...]string{".pairs.icmp", ".pairs.fcmp", ".pairs.shufflevector", ".pairs.gep-struct", ".pairs.gep", ".pairs.zext", ".pairs.cmpxchg", ".pairs.alloca", ".pairs.icmp-pointer", ".pairs.gep-vector-index", ".pairs.gep-struct-vector-index"}
 
 // VfC06_ParsePairs: one module, two functions with the same instruction kinds
 // over two independently symbolic attribute sets (scalable or fixed, element
